@@ -60,6 +60,9 @@ class Gen:
         first = r.choice(pool_names)
         second = r.choice([n for n in pool_names if n != first])
         inputs = self.forced_inputs or ([first, second] if r.random() < 0.6 else [first])
+        if not self.forced_inputs and r.random() < 0.1:
+            # two inputs whose names differ by the suffix that `start = "X_0"` appends, or that read like the built-in start tables
+            inputs = r.choice([["a", "a_0"], ["H", "H_0"], ["a_0", "a"], ["zero", "identity"], ["H", "zero"]])
         start, marker = {}, {}
         for n in names:
             start[n] = r.choice([0, 0, 0, 0, 1, '"%s_0"' % inputs[0], '"%s_0"' % inputs[-1], None, None])
@@ -637,6 +640,14 @@ class Prop:
                     series_arg = dict(compiled_inputs)
                 series, linop = series_computation(series_arg, algorithm=algo, scope=scope_arg, operator=matmul)
             except Exception as e:
+                x = e
+                while x is not None:
+                    if isinstance(x, (TracerOverflow, RecursionError)):
+                        # a re-used series dictionary makes series_computation evaluate the zeroth order of every series in
+                        # it; beyond the tracer's work budget the program is dropped, like any other over-budget program
+                        bump("program_rejected")
+                        return self._out(None, events, counters, False)
+                    x = x.__cause__ or x.__context__
                 return self._out({"class": "compile-error", "detail": f"series_computation raised {type(e).__name__}: {e}"},
                                  events, counters, False)
             ref = refdsl.Ref(algo, {n: (lambda index, tab=tables[n]: tab.get(index, zero)) for n in input_names},
